@@ -38,6 +38,17 @@ def _paths(node: Any, prefix: Path = ()) -> List[Path]:
 
 def _candidates(value: Any) -> List[Any]:
     out = []  # type: List[Any]
+    if isinstance(value, str) and value.count("\n") >= 3:
+        # multi-line text: delete runs of lines first (much faster than characters)
+        lines = value.split("\n")
+        n = len(lines)
+        chunk = n // 2
+        while chunk >= 1:
+            i = 0
+            while i < n:
+                out.append("\n".join(lines[:i] + lines[i + chunk:]))
+                i += chunk
+            chunk //= 2
     if isinstance(value, (list, str)) and len(value) > 0:
         n = len(value)
         chunk = n // 2
